@@ -132,6 +132,57 @@ def run(chk, prog):
                   % (e["var"], e["method"], ["%s.%s%s written by %s" % (k[0], k[1], "" if k[2] is None else "[%s]" % k[2], sorted(set(w_obs[k]))) for k in hit]),
                   "sim-reads-observer-write:%s.%s:%s" % (e["var"], e["method"], ["%s.%s" % (k[0], k[1]) for k in hit]))
     chk.floor("R1-simulation-calls", nsim, 10)
+    # the same for every other part of main that runs only under an observer condition (set-up messages under `verbose`, creation of the
+    # results file, ...), flow-sensitively: forward MAY analysis over main's CFG of "location possibly written by a call that runs only
+    # under an observer condition and not definitely rewritten since" (must-writes of unconditional calls kill); no call of the
+    # simulation reads such a location
+    obs_cond = {}
+    for bid, i, n, e in ev:
+        if n["id"] in ob_ids:
+            continue
+        conds_ = [c for c in A.enclosing(idx, n, {"IfStmt"}) if mentions_observer(c["cond"], OBS)]
+        if conds_:
+            obs_cond[n["id"]] = conds_[0]
+    by_node = {n["id"]: e for (_, _, n, e) in ev}
+    observer_objs = {"hdf_file", "display", "opts"}
+
+    def taint_tr(n, facts):
+        e0 = by_node.get(n.get("id"))
+        if e0 is None:
+            return facts
+        out = set(facts)
+        for e in (e0.get("sequence") or [e0]):
+            if n["id"] in obs_cond or n["id"] in ob_ids:
+                if n["id"] in obs_cond:
+                    for l in e["may_writes"]:
+                        l = Fr.norm_loc(l)
+                        if l[0] not in observer_objs:
+                            out.add((l, "%s.%s@%d under `%s`" % (e["var"], e["method"], n["line"], A.show(obs_cond[n["id"]]["cond"])[:40])))
+            else:
+                must = {Fr.norm_loc(w) for w in e["writes"]}
+                out = {(l, t) for (l, t) in out if not any(w == l or (w[0] == l[0] and w[1] == l[1] and w[2] is None) for w in must)}
+        return frozenset(out)
+    tres = mm.cfg.forward(taint_tr, set(), must=False, init=frozenset())
+    nreg = 0
+    for bid, i, n, e in sorted(ev, key=lambda t: t[2]["id"]):
+        if n["id"] in obs_cond or n["id"] in ob_ids:
+            continue
+        if any(mentions_observer(c["cond"], OBS) for c in A.enclosing(idx, n, {"IfStmt"})):
+            continue
+        facts = tres.get((bid, i), frozenset())
+        must = {Fr.norm_loc(w) for w in e["writes"]}
+        # what the call (re)writes itself is its own output (accumulators, work buffers: their history independence is C18's statement)
+        own = {Fr.norm_loc(l) for l in e["may_writes"]}
+        ext_reads = {Fr.norm_loc(l) for l in e["reads"] if not any(Fr.covers(w, Fr.norm_loc(l)) for w in own)}
+        hit = sorted({(l, t) for (l, t) in facts for r in ext_reads if Fr.covers(l, r) or Fr.covers(r, l)}, key=str)
+        nreg += 1
+        if hit:
+            chk.check(False, "R1", A.loc(mainf, n), "%s.%s() reads %s, which may still hold what %s wrote under an observer condition"
+                      % (e["var"], e["method"], sorted({"%s.%s" % (l[0], l[1]) for l, t in hit}), sorted({t for l, t in hit})),
+                      "sim-reads-observer-region:%s.%s<-%s:%s" % (e["var"], e["method"], sorted({t.split("@")[0] for l, t in hit}), sorted({"%s.%s" % (l[0], l[1]) for l, t in hit})))
+    chk.ok("R1", mainf.where, "%d calls of the simulation outside observer conditions read nothing that one of the %d observer-conditional calls outside the output block "
+           "(%s) may have written and that was not rewritten since" % (nreg, len(obs_cond), sorted({"%s.%s" % (by_node[k]["var"], by_node[k]["method"]) for k in obs_cond})[:8]))
+    chk.floor("R1-simulation-calls-vs-observer-regions", nreg, 20)
     # statements of the output block that are not calls on objects: plain assignments to locals
     for x, lhs, op, rhs in A.assignments_in(ob["then"]):
         d = A.declref(lhs)
